@@ -197,11 +197,11 @@ example : Meaning worldOracle stdTable ⟨1, .file .fileAppend 4⟩
   (perform_meaning worldOracle (stdWorld false) stdTable ⟨1, .file .fileAppend 4⟩ ⟨1, some 10⟩ rfl).1
 
 /-- ★ what the operators' `open` arguments do to the file system of the concrete world (every world,
-    every path that is not below a regular file): O_EXCL on an existing file fails with EEXIST and
+    every path that is not below a regular file and has no trailing slash): O_EXCL on an existing file fails with EEXIST and
     changes nothing; an existing regular file is emptied exactly when O_TRUNC is given, and the new
     description has the requested access, the append flag and offset 0; a missing file is created
     empty exactly when O_CREAT is given, otherwise ENOENT and nothing changes -/
-theorem resolve_posix (w : World) (path : Nat) (args : OpenArgs) (hp : path ≠ pathEnotdir)
+theorem resolve_posix (w : World) (path : Nat) (args : OpenArgs) (hp : path ≠ pathEnotdir) (hp2 : path ≠ pathSlash)
     (hlen : path < w.files.length) :
     ((fileAt w path).present = true → args.excl = true → w.resolve ⟨path, args⟩ = (w, .error .EEXIST)) ∧
     ((fileAt w path).present = true → (fileAt w path).kind = .reg → args.excl = false →
@@ -213,16 +213,16 @@ theorem resolve_posix (w : World) (path : Nat) (args : OpenArgs) (hp : path ≠ 
       fileAt (w.resolve ⟨path, args⟩).1 path = ⟨true, .reg, [], false⟩) ∧
     ((fileAt w path).present = false → args.create = false → w.resolve ⟨path, args⟩ = (w, .error .ENOENT)) := by
   refine ⟨fun h1 h2 => ?_, fun h1 h2 h3 => ?_, fun h1 h2 => ?_, fun h1 h2 => ?_⟩
-  · simp only [World.resolve, hp, ↓reduceIte, h1, h2]
+  · simp only [World.resolve, hp, hp2, ↓reduceIte, h1, h2]
   · have hk : ((fileAt w path).kind == FKind.dir) = false := by rw [h2]; rfl
     have hk' : ((fileAt w path).kind == FKind.reg) = true := by rw [h2]; rfl
     cases ht : args.trunc <;>
-      simp only [World.resolve, hp, ↓reduceIte, h1, h3, hk, hk', ht, Bool.false_and, Bool.and_true,
+      simp only [World.resolve, hp, hp2, ↓reduceIte, h1, h3, hk, hk', ht, Bool.false_and, Bool.and_true,
         Bool.false_eq_true] <;>
       simp [fileAt, ofdAt, setFile, hlen]
-  · simp only [World.resolve, hp, ↓reduceIte, h1, h2, Bool.false_eq_true]
+  · simp only [World.resolve, hp, hp2, ↓reduceIte, h1, h2, Bool.false_eq_true]
     simp [fileAt, setFile, hlen]
-  · simp only [World.resolve, hp, ↓reduceIte, h1, h2, Bool.false_eq_true]
+  · simp only [World.resolve, hp, hp2, ↓reduceIte, h1, h2, Bool.false_eq_true]
 
 /-! ### the operators' meaning with the world threaded (closes the existential of `Meaning`) -/
 
@@ -245,7 +245,8 @@ theorem perform_file_world (o : Oracle W) (w : W) (t : FdTable) (fd : Fd) (op : 
     POSIX prescribes and offset 0; an existing regular file has been emptied exactly for `>` / `>|`;
     a missing file has been created empty (which only the creating operators can do) -/
 theorem file_redirection_concrete (w : World) (t : FdTable) (fd : Fd) (op : FileOp) (path : Nat) (s : SavedFd)
-    (hnc : op = .fileOut → w.noclobber = false) (hp : path ≠ pathEnotdir) (hlen : path < w.files.length)
+    (hnc : op = .fileOut → w.noclobber = false) (hp : path ≠ pathEnotdir) (hp2 : path ≠ pathSlash)
+    (hlen : path < w.files.length)
     (h : (perform worldOracle w t ⟨fd, .file op path⟩).r = .ok s) :
     (perform worldOracle w t ⟨fd, .file op path⟩).t.get fd = some ⟨w.ofds.length, false⟩ ∧
     ((fileAt w path).present = true → (fileAt w path).kind = .reg →
@@ -265,7 +266,7 @@ theorem file_redirection_concrete (w : World) (t : FdTable) (fd : Fd) (op : File
     rw [← hofds]; exact World.resolve_ok_ofd _ _ _ _ hres'
   have hf : fileAt (World.deny w').1 path = fileAt w path := fileAt_congr hfiles path
   have hex : (posixOpenArgs op).excl = false := by cases op <;> rfl
-  obtain ⟨_, h2, h3, h4⟩ := resolve_posix (World.deny w').1 path (posixOpenArgs op) hp (by rw [hfiles]; exact hlen)
+  obtain ⟨_, h2, h3, h4⟩ := resolve_posix (World.deny w').1 path (posixOpenArgs op) hp hp2 (by rw [hfiles]; exact hlen)
   rw [hf] at h2 h3 h4
   rw [hres', hofds] at h2 h3
   refine ⟨by rw [hget, hofd], fun hpres hreg => ?_, fun hmiss => ?_⟩
